@@ -44,7 +44,14 @@ func (m *modeObj) run(dst, src []byte) {
 
 func newModeObj(st Step, env *Env) *modeObj {
 	ciph, mode, dir := st.Str("ciph"), st.Str("mode"), st.Str("dir")
-	key, key2, iv := st.Hex("key"), st.HexOr("key2"), st.HexOr("iv")
+	key, key2, iv := st.HexMut("key"), st.HexOr("key2"), st.HexOr("iv")
+	if key2 != nil {
+		key2 = append([]byte(nil), key2...)
+	}
+	if iv != nil {
+		iv = append([]byte(nil), iv...)
+	}
+	defer Reuse(key, key2, iv) // the caller wipes its key and reuses its IV buffer once the object exists
 	cr := wrappedCreator(ciph, env.Wrap)
 	b, err := cr(key)
 	if err != nil {
